@@ -183,7 +183,7 @@ pub fn run_history(rng: &mut Rng, dir: &str, idx: usize, mapped: bool, max_steps
             1 => if live.index_keys.is_empty() { None } else { Some(Q::RemoveIndex(rng.pick(&live.index_keys).clone())) },
             2 => if live.aliases.is_empty() || live.nodes.is_empty() { None } else {
                 Some(Q::InsertAliases(crate::dbq::Qids::Ids(vec![crate::dbq::Qid::Id(*rng.pick(&live.nodes))]), vec![rng.pick(&live.aliases).clone()])) },
-            _ => None,
+            _ => if live.aliases.is_empty() { None } else { Some(Q::RemoveAliases(vec![rng.pick(&live.aliases).clone()])) },
         };
         if let Some(q) = forced {
             bump(out, &format!("forced-target:{}", q.name()));
